@@ -1,5 +1,10 @@
-(** C11 — Filter directives: the most specific match wins, and filters round-trip.  Statements only. *)
+(** C11 — Filter directives: the most specific match wins, and filters round-trip.  Statements only; proofs live in
+    Directive/*.v.  The model (Directive/Model.v) interprets TVGen.Gen_directive, regenerated from /repo on every run: three
+    booleans say which shape `DirectiveSet::add`, `MatchDebug::debug_matches` and `ValueMatch::eq` have (unrepaired /
+    repaired, findings F21 / F25 / F22); every theorem below holds for both shapes, with the switch as a hypothesis where
+    the shapes differ.  Clause-to-theorem map: notes/C11.md. *)
 From TV Require Import Levels.Model Directive.Model Directive.Proofs.
+From Coq Require Import Sorted.
 Local Open Scope N_scope.
 
 (** The translator recognised the shapes it reads, and the regexes the model's recogniser was derived from are unchanged. *)
@@ -8,3 +13,313 @@ Theorem C11_source_shapes_pinned :
   gen_span_part_re = pinned_span_part_re /\ gen_field_filter_re = pinned_field_filter_re.
 Proof. exact regex_pinned. Qed.
 Print Assumptions C11_source_shapes_pinned.
+
+(** * The directive set: sorted most-specific-first, a later duplicate key wins (all insertion sequences) *)
+Theorem C11_sorted : forall inputs : list sdir,
+  StronglySorted (fun a b => cmp_s a b = Lt) (ds_dirs (s_build inputs)).
+Proof. exact sorted_build. Qed.
+Print Assumptions C11_sorted.
+
+Theorem C11_sorted_env : forall inputs : list ddir,
+  StronglySorted (fun a b => cmp_d a b = Lt) (ds_dirs (d_build inputs)).
+Proof. exact sorted_build_d. Qed.
+Print Assumptions C11_sorted_env.
+
+(** the set holds exactly the LAST entry for every key (target, field names) *)
+Theorem C11_replace : forall (inputs : list sdir) (x : sdir),
+  In x (ds_dirs (s_build inputs)) <->
+  exists l1 l2, inputs = l1 ++ x :: l2 /\ forall y, In y l2 -> key_s y <> key_s x.
+Proof. exact replace_build. Qed.
+Print Assumptions C11_replace.
+
+Theorem C11_replace_env : forall (inputs : list ddir) (x : ddir),
+  In x (ds_dirs (d_build inputs)) <->
+  exists l1 l2, inputs = l1 ++ x :: l2 /\ forall y, In y l2 -> key_d y <> key_d x.
+Proof. exact replace_build_d. Qed.
+Print Assumptions C11_replace_env.
+
+(** * Headline: enabled = the level test against the most specific matching directive.
+    [best] scans the surviving entries in INPUT order and keeps a maximal one under the documented specificity order; it
+    knows nothing of the sorted vector or of [find]. *)
+Theorem C11_most_specific : forall (inputs : list sdir) (m : meta),
+  enabled_s (s_build inputs) m =
+  match best (survivors inputs) m with
+  | Some d => allows (s_level d) (m_level m)
+  | None => false
+  end.
+Proof. exact most_specific. Qed.
+Print Assumptions C11_most_specific.
+
+(** what [best] returns: a last entry that matches, and every other matching last entry has a shorter target, or an
+    equally long target and no more field names (and loses the lexicographic fallback) *)
+Theorem C11_best_is_most_specific : forall (inputs : list sdir) (m : meta),
+  match best (survivors inputs) m with
+  | Some b => last_entry inputs b /\ cares_s b m = true /\
+              forall d, last_entry inputs d -> cares_s d m = true -> d = b \/ (primary_le d b /\ spec_cmp d b = Lt)
+  | None => forall d, In d inputs -> cares_s d m = false
+  end.
+Proof. exact best_characterised. Qed.
+Print Assumptions C11_best_is_most_specific.
+
+(** matching directives with equally long targets have the same target: ties are among field-name lists only *)
+Theorem C11_tie_same_target : forall (a b : sdir) (m : meta),
+  cares_s a m = true -> cares_s b m = true -> tlen a = tlen b -> s_target a = s_target b.
+Proof. exact tie_same_target. Qed.
+Print Assumptions C11_tie_same_target.
+
+(** ... independent of the insertion order: only which entry is last for each key matters *)
+Theorem C11_order_independent : forall (l1 l2 : list sdir) (m : meta),
+  (forall x, last_entry l1 x <-> last_entry l2 x) -> enabled_s (s_build l1) m = enabled_s (s_build l2) m.
+Proof. exact order_independent. Qed.
+Print Assumptions C11_order_independent.
+
+(** ... and nothing is enabled when no directive matches *)
+Theorem C11_no_match_disabled : forall (inputs : list sdir) (m : meta),
+  (forall d, In d inputs -> cares_s d m = false) -> enabled_s (s_build inputs) m = false.
+Proof. exact no_match_disabled. Qed.
+Print Assumptions C11_no_match_disabled.
+
+Theorem C11_examples :
+  enabled_s (s_build ex_inputs) (ex_meta ex_application Debug) = true /\
+  enabled_s (s_build ex_inputs) (ex_meta ex_application Trace) = false /\
+  enabled_s (s_build ex_inputs) (ex_meta ex_app_db Error) = false /\
+  enabled_s (s_build ex_inputs) (ex_meta [111] Error) = true /\
+  enabled_s (s_build ex_inputs) (ex_meta [111] Warn) = false /\
+  best (survivors ex_inputs) (ex_meta ex_app_db Error) = Some (mk_sdir (Some ex_app_db) [] None) /\
+  enabled_s (s_build (rev ex_inputs)) (ex_meta ex_application Debug) = false.
+Proof. exact most_specific_example. Qed.
+Print Assumptions C11_examples.
+
+(** prefix semantics (so `app` matches `application`: C11_examples, first line) *)
+Theorem C11_prefix : forall (d : sdir) (m : meta), cares_s d m = true ->
+  match s_target d with Some t => exists rest, m_target m = t ++ rest | None => True end.
+Proof. exact cares_prefix. Qed.
+Print Assumptions C11_prefix.
+
+(** the static table of an EnvFilter is such a set, and its `max_level` guard never changes the answer *)
+Theorem C11_env_statics : forall dirs : list ddir,
+  e_statics (env_build None dirs) = s_build (env_static_inputs dirs).
+Proof. exact env_statics. Qed.
+Print Assumptions C11_env_statics.
+
+Theorem C11_max_guard_transparent : forall (inputs : list sdir) (m : meta),
+  (allows (ds_max (s_build inputs)) (m_level m) && enabled_s (s_build inputs) m) = enabled_s (s_build inputs) m.
+Proof. exact guard_transparent. Qed.
+Print Assumptions C11_max_guard_transparent.
+
+Theorem C11_max_level_sound : forall (inputs : list sdir) (d : sdir),
+  In d (ds_dirs (s_build inputs)) -> lf_rank (s_level d) <= lf_rank (ds_max (s_build inputs)).
+Proof. exact max_level_sound. Qed.
+Print Assumptions C11_max_level_sound.
+
+(** * would_enable agrees with filtering (Targets of the documented grammar carry no field names) *)
+Theorem C11_would_enable : forall (inputs : list sdir) (m : meta),
+  no_fields inputs ->
+  would_enable (s_build inputs) (m_target m) (m_level m) = targets_enabled (s_build inputs) m.
+Proof. exact would_enable_inputs. Qed.
+Print Assumptions C11_would_enable.
+
+Theorem C11_would_enable_examples :
+  (no_fields ex_inputs /\ would_enable (s_build ex_inputs) ex_application Debug = true) /\
+  (exists t m, parse_targets [102; 111; 111; 91; 123; 98; 97; 114; 125; 93; 61; 116; 114; 97; 99; 101] = Some t /\
+               targets_enabled t m = true /\ would_enable t (m_target m) (m_level m) = false).
+Proof. exact (conj would_enable_example would_enable_needs_no_fields). Qed.
+Print Assumptions C11_would_enable_examples.
+
+(** * Targets and EnvFilter agree on the common grammar (in every filter state: there is no dynamic directive) *)
+Theorem C11_targets_env_agree : forall (regex lossy : bool) (s : bytes), in_common_grammar s = true ->
+  exists t e, parse_targets s = Some t /\ parse_env regex lossy None s = POk e /\
+              e_has_dyn e = false /\
+              forall st tid cs m, env_enabled e st tid cs m = targets_enabled t m.
+Proof. exact targets_env_agree. Qed.
+Print Assumptions C11_targets_env_agree.
+
+Theorem C11_common_grammar_inhabited : in_common_grammar ex_common = true.
+Proof. exact common_grammar_inhabited. Qed.
+Print Assumptions C11_common_grammar_inhabited.
+
+(** F23 (known): a target that spells a LevelFilter, "warn=debug" *)
+Theorem C11_F23_refuted :
+  in_common_grammar f23_string = false /\
+  exists t e, parse_targets f23_string = Some t /\ parse_env true false None f23_string = POk e /\
+              targets_enabled t f23_meta = false /\ env_enabled e est0 0 0 f23_meta = true.
+Proof. exact F23_refuted. Qed.
+Print Assumptions C11_F23_refuted.
+
+(** * Display then parse is the identity on parsed Targets — every string [s].
+    Hypotheses: no bare target contains "[{" (outside the documented grammar; Display would print it where a field list
+    starts), and — only for the unrepaired `add` (F21) — no overwritten duplicate carried a level above every survivor. *)
+Theorem C11_roundtrip_static : forall (s : bytes) (inputs : list sdir),
+  parsed_entries s = Some inputs ->
+  forallb clean_target (ds_dirs (s_build inputs)) = true ->
+  (gen_add_recomputes_max = true \/ stale_max_b inputs = false) ->
+  parse_targets (display_targets (s_build inputs)) = Some (s_build inputs).
+Proof. exact roundtrip_static. Qed.
+Print Assumptions C11_roundtrip_static.
+
+(** without the F21 hypothesis the directive list still round-trips *)
+Theorem C11_roundtrip_static_directives : forall (s : bytes) (inputs : list sdir),
+  parsed_entries s = Some inputs ->
+  forallb clean_target (ds_dirs (s_build inputs)) = true ->
+  exists T', parse_targets (display_targets (s_build inputs)) = Some T' /\ ds_dirs T' = ds_dirs (s_build inputs).
+Proof. exact roundtrip_directives. Qed.
+Print Assumptions C11_roundtrip_static_directives.
+
+Theorem C11_parse_targets_is : forall s : bytes, parse_targets s = option_map s_build (parsed_entries s).
+Proof. exact parse_targets_entries. Qed.
+Print Assumptions C11_parse_targets_is.
+
+Theorem C11_roundtrip_static_example :
+  exists inputs, parsed_entries ex_common_s = Some inputs /\
+                 forallb clean_target (ds_dirs (s_build inputs)) = true /\ stale_max_b inputs = false.
+Proof. exact roundtrip_example. Qed.
+Print Assumptions C11_roundtrip_static_example.
+
+(** F21: "a=trace,a=error" (refuted while `add` has the unrepaired shape; round-trips with the repaired one) *)
+Theorem C11_F21_refuted : gen_add_recomputes_max = false ->
+  exists s t, parse_targets s = Some t /\ parse_targets (display_targets t) <> Some t.
+Proof. exact F21_refuted. Qed.
+Print Assumptions C11_F21_refuted.
+
+Theorem C11_F21_fixed_example : gen_add_recomputes_max = true ->
+  exists t, parse_targets f21_string = Some t /\ parse_targets (display_targets t) = Some t.
+Proof. exact F21_fixed_example. Qed.
+Print Assumptions C11_F21_fixed_example.
+
+(** * Display then parse on the modelled EnvFilter grammar  target? [ name? { field (= value)? }? ] (= level)?
+    [wf_d]: target over [\w:-] not spelling a level; span name without [ ] { , ; one field (a comma inside a field list is
+    outside the model) whose name is a word and whose value text parses back to the value ([value_ok]: booleans, canonical
+    integers, Debug literals when regex matching is off).  Every such directive is printed to a string that parses back
+    to it, for every level and in both regex modes. *)
+Theorem C11_roundtrip_env_directive : forall (regex : bool) (d : ddir),
+  wf_d regex d = true -> parse_ddir regex (display_ddir d) = POk d.
+Proof. exact roundtrip_ddir. Qed.
+Print Assumptions C11_roundtrip_env_directive.
+
+(** Filters (partial): for a directive list of that grammar in which every directive is plain or properly dynamic (a
+    span name or a value matcher), the printed filter parses, in strict mode, to a filter with the same static and the
+    same dynamic table.  Not covered: field-name-only directives such as `[{x}]=info` (they live in both tables), and the
+    equality of the two cached `max_level`s (F21's subject, see C11_roundtrip_static). *)
+Theorem C11_roundtrip_env_partial : forall (regex : bool) (ds : list ddir),
+  (forall d, In d ds -> in_class regex d = true) ->
+  let e := env_build None ds in
+  exists e', parse_env regex false None (display_env e) = POk e' /\
+             ds_dirs (e_statics e') = ds_dirs (e_statics e) /\
+             ds_dirs (e_dynamics e') = ds_dirs (e_dynamics e) /\
+             e_has_dyn e' = e_has_dyn e.
+Proof. exact roundtrip_env_tables. Qed.
+Print Assumptions C11_roundtrip_env_partial.
+
+(** every u64, every negative i64 and both booleans are values of the grammar ([value_ok]) *)
+Theorem C11_roundtrip_env_literals :
+  (forall regex n, n <= USIZE_MAX -> value_ok regex (VU64 n) = true) /\
+  (forall regex z, (- 9223372036854775808 <= z < 0)%Z -> value_ok regex (VI64 z) = true) /\
+  (forall regex b, value_ok regex (VBool b) = true).
+Proof. exact literal_values_ok. Qed.
+Print Assumptions C11_roundtrip_env_literals.
+
+Theorem C11_roundtrip_env_examples :
+  forallb (in_class true) ex_dirs = true /\
+  in_class false (mk_ddir None (Some [115; 112]) [mk_fmatch [120] (Some (VDebugLit [49; 97]))] (Some Debug)) = true /\
+  in_class false (mk_ddir None None [mk_fmatch [120] None] (Some Info)) = false.
+Proof. exact grammar_members. Qed.
+Print Assumptions C11_roundtrip_env_examples.
+
+(** remark (not registered as a finding): `-0` is read as I64(0), printed as `0`, read back as U64(0) *)
+Theorem C11_roundtrip_env_noncanonical_integer :
+  value_ok true (VI64 0) = false /\
+  exists d d', parse_ddir true [91; 115; 112; 123; 120; 61; 45; 48; 125; 93] = POk d /\
+               parse_ddir true (display_ddir d) = POk d' /\ d <> d'.
+Proof. exact noncanonical_integer. Qed.
+Print Assumptions C11_roundtrip_env_noncanonical_integer.
+
+(** * Span-scoped directives.  For every well-nested filter-level history (enter / exit LIFO per thread, a span is closed
+    only when entered nowhere, ids not reused while live) in which no value is recorded while the span is entered (the
+    complement is F24): an event is enabled exactly when some span on the thread's entered-not-exited stack is matched
+    (target prefix, name, field names, recorded values) by a directive whose level admits the event, or the most specific
+    static directive admits it.  The per-thread stack in the abstract state is pushed by enter and popped by exit, so
+    nothing survives an exit. *)
+Theorem C11_scope : forall (e : envf) (evs : list fev) (tid cs : N) (m : meta),
+  wf_env e -> well_nested e evs -> quiet e evs -> is_span m = false ->
+  env_enabled e (frun e evs) tid cs m =
+  scope_spec e (arun e evs) tid (m_level m) || enabled_s (e_statics e) m.
+Proof. exact scope_event. Qed.
+Print Assumptions C11_scope.
+
+Theorem C11_scope_wf_parsed : forall regex lossy default s e, parse_env regex lossy default s = POk e -> wf_env e.
+Proof. exact wf_env_parse. Qed.
+Print Assumptions C11_scope_wf_parsed.
+
+(** the concrete stack is the abstract one (the refinement behind C11_scope), with or without F24's hypothesis *)
+Theorem C11_scope_refinement : forall (e : envf) (evs : list fev), well_nested e evs ->
+  forall tid, scope_of (frun e evs) tid = map snd (astack (arun e evs) tid).
+Proof. exact scope_stack_refines. Qed.
+Print Assumptions C11_scope_refinement.
+
+Theorem C11_scope_nothing_leaks : forall (e : envf) (evs : list fev) (tid cs : N) (m : meta),
+  wf_env e -> well_nested e evs -> quiet e evs -> is_span m = false ->
+  astack (arun e evs) tid = [] ->
+  env_enabled e (frun e evs) tid cs m = enabled_s (e_statics e) m.
+Proof. exact scope_nothing_entered. Qed.
+Print Assumptions C11_scope_nothing_leaks.
+
+Theorem C11_scope_enter_exit : forall (e : envf) (a : ast) (tid id t : N), assoc_n id (a_spans a) <> None ->
+  astack (astep e (astep e a (FEnter tid id)) (FExit tid id)) t = astack a t.
+Proof. exact enter_exit_restores. Qed.
+Print Assumptions C11_scope_enter_exit.
+
+Theorem C11_scope_example :
+  well_nested env_x1 hist_enter_x1 /\ quiet env_x1 hist_enter_x1 /\
+  env_enabled env_x1 (frun env_x1 hist_enter_x1) 0 9 (m_event Debug) = true /\
+  env_enabled env_x1 (frun env_x1 hist_enter_x1) 1 9 (m_event Debug) = false /\
+  env_enabled env_x1 (frun env_x1 (hist_enter_x1 ++ [FExit 0 1])) 0 9 (m_event Debug) = false.
+Proof. exact scope_raises_and_restores. Qed.
+Print Assumptions C11_scope_example.
+
+(** "and for that span itself": a span whose callsite was registered is enabled when a directive that matches its
+    metadata admits its level.  The converse fails (F12). *)
+Theorem C11_scope_span_itself : forall (e : envf) (evs : list fev) (tid cs : N) (m : meta),
+  wf_env e -> well_nested e evs -> In (FRegister cs m) evs -> is_span m = true ->
+  (exists d, In d (ds_dirs (e_dynamics e)) /\ cares_d d m = true /\ allows (d_level d) (m_level m) = true) ->
+  env_enabled e (frun e evs) tid cs m = true.
+Proof. exact span_itself. Qed.
+Print Assumptions C11_scope_span_itself.
+
+(** F24 (known): [sp{x=1}]=debug; span sp; enter; record x=1; DEBUG event: the span matches, the event is disabled *)
+Theorem C11_F24_refuted :
+  wf_env env_x1 /\ well_nested env_x1 hist_f24 /\ ~ quiet env_x1 hist_f24 /\
+  scope_spec env_x1 (arun env_x1 hist_f24) 0 Debug = true /\
+  env_enabled env_x1 (frun env_x1 hist_f24) 0 9 (m_event Debug) = false.
+Proof. exact F24_refuted. Qed.
+Print Assumptions C11_F24_refuted.
+
+(** F12 (known): "[sq]=trace,[sp]=debug": a TRACE span `sp` is enabled *)
+Theorem C11_F12_refuted :
+  wf_env env_f12 /\
+  (forall d, In d (ds_dirs (e_dynamics env_f12)) -> cares_d d (m_span Trace) = true -> allows (d_level d) Trace = false) /\
+  enabled_s (e_statics env_f12) (m_span Trace) = false /\
+  env_enabled env_f12 (frun env_f12 [FRegister 7 (m_span Trace)]) 0 7 (m_span Trace) = true.
+Proof. exact F12_refuted. Qed.
+Print Assumptions C11_F12_refuted.
+
+(** * Value matchers: a Debug literal matches exactly its text (repaired shape); F25 otherwise *)
+Theorem C11_debug_literal_exact : gen_debug_match_exact = true ->
+  forall p t, vm_matches (VDebugLit p) (RDebug t) = true <-> t = p.
+Proof. exact debug_literal_exact. Qed.
+Print Assumptions C11_debug_literal_exact.
+
+Theorem C11_F25_refuted : gen_debug_match_exact = false ->
+  exists p t, t <> p /\ vm_matches (VDebugLit p) (RDebug t) = true.
+Proof. exact F25_refuted. Qed.
+Print Assumptions C11_F25_refuted.
+
+(** * `Ord` and `PartialEq` of directives agree (the debug assertion in `Directive::cmp` cannot fire) with the Debug arm
+    in `ValueMatch::eq`; without it (F22) it fires exactly on a duplicate key carrying a Debug literal *)
+Theorem C11_ord_eq_consistent : gen_valuematch_eq_debug = true -> forall a b : ddir, ord_assert_fails a b = false.
+Proof. exact ord_eq_consistent. Qed.
+Print Assumptions C11_ord_eq_consistent.
+
+Theorem C11_F22_refuted : gen_valuematch_eq_debug = false -> forall a b : ddir,
+  ord_assert_fails a b = true <-> (key_d a = key_d b /\ has_debug_lit b = true).
+Proof. exact ord_assert_fails_iff. Qed.
+Print Assumptions C11_F22_refuted.
